@@ -86,13 +86,63 @@ X4 = """subroutine subTwo(xPos, iCnt)
   iCnt = shiftl(iCnt, 1) + popcnt(iCnt)
 end subroutine subTwo
 """
-SOURCES = dict(V1=V1, V2=V2, V3=V3, I1=I1, I2=I2, I3=I3, I4=I4, IK=IK, X1=X1, X2=X2, X3=X3_08, X4=X4)
+# statements whose rule classes the 2008 parser overrides, in their 2003 spellings (valid under both standards)
+V4 = """program progMain
+  integer :: iCnt, ioS
+  real :: xPos
+  real, allocatable :: dynA(:)
+  real, pointer :: pRef(:)
+  type :: typPoint
+    real, pointer :: fldP(:)
+    real :: fldA
+  end type typPoint
+  procedure(real), pointer :: ppF => null()
+  open(unit = 11, file = 'x', status = 'old', iostat = ioS)
+  allocate(dynA(3), stat = ioS)
+  do 10 iCnt = 1, 3
+    if (iCnt == 2) stop 2
+  10 continue
+  do iCnt = 1, 2
+    xPos = 1.0
+  end do
+  write(*, '(1x, a, i5)') 'n', iCnt
+  stop
+end program progMain
+"""
+# the 2008-only forms of the same statements (a failing parse under f2003, a valid one under f2008)
+V5_08 = """module modAlpha
+  real, contiguous, pointer :: cgP(:)
+  integer, codimension[*] :: coI
+end module modAlpha
+submodule (modAlpha) smodX
+end submodule smodX
+program progMain
+  integer :: iCnt
+  real :: aVec(3)
+  real, allocatable :: dynA(:)
+  open(newunit = iCnt, file = 'x')
+  allocate(dynA, mold = aVec)
+  do concurrent (iCnt = 1:3)
+    aVec(iCnt) = 0.0
+  end do
+  critical
+    aVec(1) = 1.0
+  end critical
+  if (iCnt == 2) error stop 3
+  error stop
+end program progMain
+"""
+SOURCES = dict(V1=V1, V2=V2, V3=V3, V4=V4, V5=V5_08, I1=I1, I2=I2, I3=I3, I4=I4, IK=IK, X1=X1, X2=X2, X3=X3_08, X4=X4)
 
 
 class _Sources(dict):
     """G<seed> = a generated valid program (f2003 subset: acceptable to both parsers)"""
 
     def __missing__(self, name):
+        if name[0] == "S":
+            import props.c17 as c17
+            self[name] = c17.single_construct_programs()[name[2:]]
+            return self[name]
         if name[0] == "G":
             st, _ = gen.gen_program(int(name[1:]), "f2003", size=0.4)
             self[name] = gen.render(st)
@@ -199,6 +249,20 @@ def histories(ctx):
             for f in fails:
                 for x in (["X1", "X2", "X4"] + (["X3"] if std == "f2008" else [])):
                     cases.append((h + (("create", std),) + f, std, x))
+    # standard-crossing stream: statements whose classes the 2008 parser overrides, in both spellings, as
+    # history; one 2008-only construct (or the 2003 spellings) as the target, under either standard
+    import props.c17 as c17
+    beta = [("create", "f2003"), ("create", "f2008"), ("parse", "V4"), ("parse", "V5")]
+    hb = []
+    for n in range(1, 4):
+        hb += list(itertools.product(beta, repeat=n))
+    hb = [h for h in hb if any(o[0] == "parse" for o in h)]
+    singles = ["S_" + k for k in sorted(c17.single_construct_programs())]
+    for i, h in enumerate(hb):
+        for std in ("f2003", "f2008"):
+            tg = singles if (ctx.quick and i % 2 == 0) or not ctx.quick else singles[i % 3::3]
+            for x in tg + ["V4", "V5"]:
+                cases.append((h + (("create", std),), std, x))
     # generated programs parsed under one standard, then another generated program under the other
     for k in range(ctx.n(60, 1500)):
         a, b, x = ("G%d" % (ctx.seed * 7 + 3 * k + j) for j in range(3))
